@@ -396,6 +396,21 @@ fn spawn_async_ao_list_in_task'''),
         ('ifs-test-inverted', 'brush-core/src/expansion.rs', 'if ifs.contains(c) {', 'if !ifs.contains(c) {'),
         ('quoted-piece-starts-new-field', 'brush-core/src/expansion.rs', 'ExpansionPiece::Unsplittable(_) => current_field.0.push(piece),', 'ExpansionPiece::Unsplittable(_) => fields.push(WordField(vec![piece])),'),
     ],
+    'U13': [
+        ('lookup-outermost-first', 'brush-core/src/env.rs', '''        // Look through scopes, from the top of the stack on down.
+        for (scope_type, map) in self.scopes.iter().rev() {
+            if let Some(var) = map.get(name.as_ref()) {
+                return Some((*scope_type, var));''', '''        // Look through scopes, from the top of the stack on down.
+        for (scope_type, map) in self.scopes.iter() {
+            if let Some(var) = map.get(name.as_ref()) {
+                return Some((*scope_type, var));'''),
+        ('pop-keeps-scope-on-mismatch', 'brush-core/src/env.rs', '''        match self.scopes.pop() {
+            Some((actual_scope_type, _)) if actual_scope_type == expected_scope_type => Ok(()),''', '''        match self.scopes.last() {
+            Some((actual_scope_type, _)) if *actual_scope_type == expected_scope_type => { self.scopes.pop(); Ok(()) }'''),
+        ('readonly-unset-allowed', 'brush-core/src/env.rs', '            Some(true) => Err(error::ErrorKind::ReadonlyVariable.into()),', '            Some(true) => Ok(map.unset(name)),'),
+        ('new-starts-with-local-scope', 'brush-core/src/env.rs', 'scopes: vec![(EnvironmentScope::Global, ShellVariableMap::default())],', 'scopes: vec![(EnvironmentScope::Local, ShellVariableMap::default())],'),
+        ('push-reuses-top-scope-kind', 'brush-core/src/env.rs', 'self.scopes.push((scope_type, ShellVariableMap::default()));', 'self.scopes.push((EnvironmentScope::Local, ShellVariableMap::default()));'),
+    ],
     'U15': [
         ('close-removes-entry', 'brush-core/src/openfiles.rs', 'self.files.insert(fd, None).and_then(|f| f)', 'self.files.remove(&fd).and_then(|f| f)'),
         ('add-starts-at-stderr', 'brush-core/src/openfiles.rs', 'const FIRST_NON_STDIO_FD: ShellFd = 3;', 'const FIRST_NON_STDIO_FD: ShellFd = 2;'),
